@@ -203,6 +203,11 @@ func runH265Parse(donl bool, payloads [][]byte) Outcome {
 		if !g.intact(in) {
 			o.Fail = fmt.Sprintf("step %d: input modified", i)
 		}
+		// RFC 7798 4.4.3, from the bytes: only a fragmentation unit (type 49, bits 1-6 of the first byte,
+		// whatever the F bit says) without its S bit is not the head of a partition
+		if wantHead := len(in) >= 3 && !(in[0]>>1&0x3F == 49 && in[2]&0x80 == 0); head != wantHead && o.Fail == "" {
+			o.Fail = fmt.Sprintf("step %d: IsPartitionHead(%x) = %v, the payload header and FU header say %v", i, in[:minInt(len(in), 4)], head, wantHead)
+		}
 		if err != nil {
 			res = append(res, L(ErrV(1), Bool(head)))
 			o.Tags = append(o.Tags, "h265 rejected")
